@@ -15,6 +15,7 @@ import (
 	"bytes"
 	"crypto"
 	"crypto/ecdsa"
+	"crypto/ed25519"
 	"crypto/rsa"
 	"crypto/sha256"
 	stdx509 "crypto/x509"
@@ -182,10 +183,49 @@ func c01Exts(tbs []byte) (fields []c01TLV, extIdx int, exts []c01TLV, ok bool) {
 	return fields, extIdx, exts, ok
 }
 
+// c01Parts: the pieces of a certificate an RFC 6962 client needs, cut out of the DER with the harness' own walker
+// (the standard library refuses some encodings the log accepts, e.g. an RSA key without NULL parameters).
+type c01Parts struct {
+	tbs, spki, issuerRaw []byte
+	preIssuer            bool // extended key usage contains the Certificate Transparency OID
+}
+
+var (
+	c01OIDEKU   = []byte{0x06, 0x03, 0x55, 0x1d, 0x25}
+	c01OIDCTEKU = []byte{0x06, 0x0a, 0x2b, 0x06, 0x01, 0x04, 0x01, 0xd6, 0x79, 0x02, 0x04, 0x04}
+)
+
+func c01CertParts(der []byte) (c01Parts, bool) {
+	outer, rest, ok := c01Read(der)
+	if !ok || len(rest) != 0 {
+		return c01Parts{}, false
+	}
+	parts, ok := c01Children(outer.val)
+	if !ok || len(parts) != 3 {
+		return c01Parts{}, false
+	}
+	fields, _, exts, ok := c01Exts(parts[0].full)
+	if !ok {
+		return c01Parts{}, false
+	}
+	at := 2
+	if fields[0].tag == 0xa0 {
+		at = 3
+	}
+	if len(fields) < at+4 {
+		return c01Parts{}, false
+	}
+	p := c01Parts{tbs: parts[0].full, issuerRaw: fields[at].full, spki: fields[at+3].full}
+	if v, i := c01ExtValue(exts, c01OIDEKU); i >= 0 && bytes.Contains(v, c01OIDCTEKU) {
+		p.preIssuer = true
+	}
+	return p, true
+}
+
 // c01Defang derives the TBSCertificate of the precert entry (RFC 6962 §3.2): the poison extension removed and,
 // when a Precertificate Signing Certificate issued the precertificate, issuer and authority key identifier
 // replaced by those of the signing certificate — by byte surgery on the DER, every other byte kept.
-func c01Defang(tbs []byte, preIssuer *stdx509.Certificate) ([]byte, bool) {
+func c01Defang(tbs []byte, preIssuer *c01Parts) ([]byte, bool) {
 	fields, extIdx, exts, ok := c01Exts(tbs)
 	if !ok || extIdx < 0 {
 		return nil, false
@@ -209,8 +249,8 @@ func c01Defang(tbs []byte, preIssuer *stdx509.Certificate) ([]byte, bool) {
 		if fields[0].tag == 0xa0 {
 			at = 3
 		}
-		fields[at] = c01TLV{full: preIssuer.RawIssuer}
-		_, _, pexts, ok := c01Exts(preIssuer.RawTBSCertificate)
+		fields[at] = c01TLV{full: preIssuer.issuerRaw}
+		_, _, pexts, ok := c01Exts(preIssuer.tbs)
 		if !ok {
 			return nil, false
 		}
@@ -387,14 +427,14 @@ func (l *c01Log) submit(chain, path []*vCert, pre bool, now time.Time, what stri
 	key := fmt.Sprintf("%s %s %s now=%d", l.name, ep, what, nowMs)
 
 	// ---- what an independent client derives
-	var std []*stdx509.Certificate
+	var std []c01Parts
 	for _, c := range path {
-		sc, err := stdx509.ParseCertificate(c.der)
-		if err != nil {
-			out.Fail(key, "standard library cannot parse a generated certificate: "+err.Error())
+		pc, ok := c01CertParts(c.der)
+		if !ok {
+			out.Fail(key, "the harness cannot take a generated certificate apart")
 			return
 		}
-		std = append(std, sc)
+		std = append(std, pc)
 	}
 	entry := c01Entry{der: path[0].der}
 	derivable, deTBS := true, "-"
@@ -402,17 +442,11 @@ func (l *c01Log) submit(chain, path []*vCert, pre bool, now time.Time, what stri
 		entry = c01Entry{precert: true}
 		derivable = false
 		if len(std) >= 2 {
-			issuer, final := std[1], std[1]
-			var preIss *stdx509.Certificate
-			isPre := false
-			for _, o := range issuer.UnknownExtKeyUsage {
-				if o.String() == "1.3.6.1.4.1.11129.2.4.4" {
-					isPre = true
-				}
-			}
+			final := std[1]
+			var preIss *c01Parts
 			ok := true
-			if isPre {
-				preIss = issuer
+			if std[1].preIssuer {
+				preIss = &std[1]
 				if len(std) >= 3 {
 					final = std[2]
 				} else {
@@ -420,8 +454,8 @@ func (l *c01Log) submit(chain, path []*vCert, pre bool, now time.Time, what stri
 				}
 			}
 			if ok {
-				if tbs, ok2 := c01Defang(std[0].RawTBSCertificate, preIss); ok2 {
-					h := sha256.Sum256(final.RawSubjectPublicKeyInfo)
+				if tbs, ok2 := c01Defang(std[0].tbs, preIss); ok2 {
+					h := sha256.Sum256(final.spki) // the issuer's SubjectPublicKeyInfo exactly as it stands in its certificate
 					entry.issuerKeyHash, entry.tbs, derivable = h[:], tbs, true
 					deTBS = hex.EncodeToString(tbs)
 				}
@@ -436,13 +470,7 @@ func (l *c01Log) submit(chain, path []*vCert, pre bool, now time.Time, what stri
 	var sb strings.Builder
 	fmt.Fprintf(&sb, "ac %s %d %s %d", verifkit.Hex(l.spki), nowMs, verifkit.B(pre), len(path))
 	for i, c := range path {
-		isPI := false
-		for _, o := range std[i].UnknownExtKeyUsage {
-			if o.String() == "1.3.6.1.4.1.11129.2.4.4" {
-				isPI = true
-			}
-		}
-		fmt.Fprintf(&sb, " %s %s %s %s", verifkit.Hex(c.der), verifkit.Hex(std[i].RawSubjectPublicKeyInfo), verifkit.Hex(std[i].RawTBSCertificate), verifkit.B(isPI))
+		fmt.Fprintf(&sb, " %s %s %s %s", verifkit.Hex(c.der), verifkit.Hex(std[i].spki), verifkit.Hex(std[i].tbs), verifkit.B(std[i].preIssuer))
 	}
 	fmt.Fprintf(&sb, " %s", deTBS)
 	if p != "" {
@@ -637,6 +665,12 @@ func TestVerifC01(t *testing.T) {
 					sp.akiMode = vAKINone
 				}
 				leaf := vIssue(sp)
+				if r.Intn(2) == 0 {
+					// extensions in an order no Go encoder produces: poison anywhere, AKI anywhere / last / removed
+					aki := []int{-1, -1, -2, 0, 1, 2, 99}[r.Intn(7)]
+					leaf = vPlaceExts(leaf, r.Intn(7), aki)
+					out.Count("mode:extensions-reordered")
+				}
 				s.path = vPath(leaf)
 				s.chain = s.path
 				if r.Intn(3) > 0 && len(s.path) > 1 {
@@ -655,6 +689,55 @@ func TestVerifC01(t *testing.T) {
 				out.Sample(fmt.Sprintf("%s %s now=%v", lg.name, s.what, now.UTC()))
 			}
 			done = append(done, s)
+		}
+		// every position of the poison extension relative to the authority key identifier, under a Precertificate
+		// Signing Certificate (issuer and AKI are rewritten) and under a direct issuer, with an extension after the AKI
+		if wi < verifkit.N(3, 1000) {
+			for _, issuer := range []*vCert{w.preIss[0], w.inters[0]} {
+				base := vIssue(vSpec{cn: fmt.Sprintf("c01w%d ext-order under %s", wi, issuer.label), key: keys[8], issuer: issuer,
+					keyUsage: stdx509.KeyUsageDigitalSignature, ekus: []stdx509.ExtKeyUsage{stdx509.ExtKeyUsageServerAuth}, poison: vPoisonOK, customExt: true})
+				n := 0
+				for _, akiAt := range []int{0, 2, 99, -2} {
+					for poisonAt := 0; poisonAt <= 5; poisonAt++ {
+						n++
+						p := vPlaceExts(base, poisonAt, akiAt)
+						// each variant is a different certificate (different bytes), so none is a duplicate of another
+						path := vPath(p)
+						lg.submit(path[:len(path)-1], path, true, c01Clocks[(n+wi)%len(c01Clocks)],
+							fmt.Sprintf("precert under %s, poison at %d, AKI at %d", issuer.label, poisonAt, akiAt))
+						out.Count("mode:extension-order-sweep")
+					}
+				}
+			}
+		}
+		// issuers whose SubjectPublicKeyInfo is not in the encoding an encoder would produce: the issuer key hash is
+		// over the bytes that stand in the issuer's certificate
+		{
+			rsaCA := vIssue(vSpec{cn: fmt.Sprintf("c01w%d rsa issuer", wi), key: keys[wi%2], issuer: w.roots[0], isCA: true, keyUsage: vCAUsage})
+			var odd []*vCert
+			if g := verifkit.Guard(func() { odd = append(odd, vDropSPKINull(rsaCA)) }); g != "" {
+				out.Count("class:spki-without-null-not-parsed")
+			}
+			if edPub, edPriv, err := ed25519.GenerateKey(nil); err == nil {
+				_ = edPub
+				edCA := vIssue(vSpec{cn: fmt.Sprintf("c01w%d ed25519 issuer", wi), key: &vKey{edPriv, "ed25519"}, issuer: w.roots[0], isCA: true, keyUsage: vCAUsage})
+				if g := verifkit.Guard(func() { odd = append(odd, vAddSPKINull(edCA)) }); g != "" {
+					out.Count("class:spki-with-explicit-null-not-parsed")
+				}
+			}
+			for _, ca := range odd {
+				pi := vIssue(vSpec{cn: ca.label + " preissuer", key: keys[9], issuer: ca, isCA: true, keyUsage: vCAUsage, ctEKU: true})
+				for i, issuer := range []*vCert{ca, pi, ca} {
+					pre := i < 2
+					sp := vSpec{cn: fmt.Sprintf("leaf %d under %s", i, issuer.label), key: keys[10], issuer: issuer, keyUsage: stdx509.KeyUsageDigitalSignature}
+					if pre {
+						sp.poison = vPoisonOK
+					}
+					path := vPath(vIssue(sp))
+					lg.submit(path[:len(path)-1], path, pre, c01Clocks[3], fmt.Sprintf("%s under %s", map[bool]string{false: "cert", true: "precert"}[pre], issuer.label))
+					out.Count("mode:non-canonical-issuer-spki")
+				}
+			}
 		}
 		// a Precertificate Signing Certificate that is itself a trust anchor: no final issuer in the path, no entry
 		{
